@@ -117,13 +117,36 @@ func init() {
 			info := f.Pkg.TypesInfo
 			// the variable holding alignSender's result
 			var waitVar types.Object
-			ast.Inspect(f.Decl.Body, func(n ast.Node) bool {
+			inspect(f.Decl.Body, func(n ast.Node) bool {
 				as, ok := n.(*ast.AssignStmt)
 				if !ok || len(as.Rhs) != 1 || len(as.Lhs) != 1 {
 					return true
 				}
-				if call, ok := ast.Unparen(as.Rhs[0]).(*ast.CallExpr); ok && r.P.CalleeFunc(info, call) == align {
-					waitVar = prog.IdentObj(info, as.Lhs[0])
+				if call, ok := ast.Unparen(as.Rhs[0]).(*ast.CallExpr); ok {
+					if r.P.CalleeFunc(info, call) == align {
+						waitVar = prog.IdentObj(info, as.Lhs[0])
+					}
+					// an immediately invoked closure (e.g. one that takes the read lock with a deferred
+					// unlock) whose every return is alignSender's result
+					if lit, ok := ast.Unparen(call.Fun).(*ast.FuncLit); ok {
+						nRet, all := 0, true
+						ast.Inspect(lit.Body, func(m ast.Node) bool {
+							if inner, ok := m.(*ast.FuncLit); ok && inner != lit {
+								return false
+							}
+							if ret, ok := m.(*ast.ReturnStmt); ok {
+								nRet++
+								c2, ok := ast.Unparen(ret.Results[0]).(*ast.CallExpr)
+								if len(ret.Results) != 1 || !ok || r.P.CalleeFunc(info, c2) != align {
+									all = false
+								}
+							}
+							return true
+						})
+						if nRet > 0 && all {
+							waitVar = prog.IdentObj(info, as.Lhs[0])
+						}
+					}
 				}
 				return true
 			})
@@ -145,13 +168,13 @@ func init() {
 				r.Error("HandleEvent: expected >= 4 sends on o.events (one per event kind), found %d", n)
 			}
 			// the argument of alignSender is the senderID parameter of HandleEvent
-			ast.Inspect(f.Decl.Body, func(nd ast.Node) bool {
+			inspect(f.Decl.Body, func(nd ast.Node) bool {
 				call, ok := nd.(*ast.CallExpr)
 				if !ok || r.P.CalleeFunc(info, call) != align {
 					return true
 				}
 				r.Site(call.Pos(), "alignSender argument is HandleEvent's senderID parameter")
-				if len(call.Args) != 1 || !r.isParam(f, call.Args[0], 1) {
+				if len(call.Args) != 1 || !r.isParam(f, deref(info, call.Args[0]), 1) {
 					r.Fail(f.Name()+":alignSender-arg", call.Pos(), nil, "alignSender is not called with HandleEvent's sender id parameter")
 				}
 				return true
@@ -168,7 +191,7 @@ func init() {
 			recvObj := info.Defs[f.Decl.Recv.List[0].Names[0]]
 			// comma-ok variable of the srIDs lookup
 			var okVar types.Object
-			ast.Inspect(f.Decl.Body, func(n ast.Node) bool {
+			inspect(f.Decl.Body, func(n ast.Node) bool {
 				as, ok := n.(*ast.AssignStmt)
 				if !ok || len(as.Lhs) != 2 || len(as.Rhs) != 1 {
 					return true
@@ -184,7 +207,7 @@ func init() {
 			}
 			blocks := func(lit *ast.FuncLit) bool {
 				found := false
-				ast.Inspect(lit.Body, func(n ast.Node) bool {
+				inspect(lit.Body, func(n ast.Node) bool {
 					if u, ok := n.(*ast.UnaryExpr); ok && u.Op == token.ARROW && prog.SelField(info, u.X) == gate {
 						found = true
 					}
@@ -315,7 +338,7 @@ func init() {
 				r.Fail(f.Name()+":no-close", f.Decl.Pos(), nil, "registerBarrier never closes allBarriersReceived: blocked senders are never released")
 			}
 			// sender removed is the senderID parameter
-			ast.Inspect(f.Decl.Body, func(n ast.Node) bool {
+			inspect(f.Decl.Body, func(n ast.Node) bool {
 				call, ok := n.(*ast.CallExpr)
 				if !ok || len(call.Args) != 2 {
 					return true
@@ -380,7 +403,7 @@ func init() {
 			barrierID := r.P.Field("proto/workerpb", "CheckpointBarrier", "CheckpointId")
 			getID := r.P.FuncObj("proto/workerpb", "(*CheckpointBarrier).GetCheckpointId")
 			n := 0
-			ast.Inspect(f.Decl.Body, func(nd ast.Node) bool {
+			inspect(f.Decl.Body, func(nd ast.Node) bool {
 				call, ok := nd.(*ast.CallExpr)
 				if !ok || r.P.CalleeFunc(info, call) != nc.Obj || len(call.Args) != 2 {
 					return true
@@ -406,7 +429,7 @@ func init() {
 			// newCheckpoint: srIDs derives from its second parameter, id from the first
 			ni := nc.Pkg.TypesInfo
 			okIDs, okID := false, false
-			ast.Inspect(nc.Decl.Body, func(nd ast.Node) bool {
+			inspect(nc.Decl.Body, func(nd ast.Node) bool {
 				if kv, ok := nd.(*ast.KeyValueExpr); ok {
 					if id, ok := kv.Key.(*ast.Ident); ok {
 						switch id.Name {
@@ -426,10 +449,10 @@ func init() {
 			km := r.P.Func("util/sliceu", "KeyMap")
 			kmi := km.Pkg.TypesInfo
 			okKM := false
-			ast.Inspect(km.Decl.Body, func(nd ast.Node) bool {
+			inspect(km.Decl.Body, func(nd ast.Node) bool {
 				if rs, ok := nd.(*ast.RangeStmt); ok && r.isParam(km, rs.X, 0) {
 					clean := true
-					ast.Inspect(rs.Body, func(m ast.Node) bool {
+					inspect(rs.Body, func(m ast.Node) bool {
 						if _, ok := m.(*ast.BranchStmt); ok {
 							clean = false
 						}
